@@ -20,10 +20,10 @@ import (
 func TestMain(m *testing.M) { ev.Main(m, "C14") }
 
 var (
-	intRe   = regexp.MustCompile(`^[+-]?[0-9]+`)
-	uintRe  = regexp.MustCompile(`^[0-9]+`)
-	floatRe = regexp.MustCompile(`^[+-]?([0-9]+\.?[0-9]*|\.[0-9]+)([eE][+-]?[0-9]+)?`)
-	decRe   = regexp.MustCompile(`^-?[0-9]*\.?[0-9]*`)
+	intRe      = regexp.MustCompile(`^[+-]?[0-9]+`)
+	uintRe     = regexp.MustCompile(`^[0-9]+`)
+	floatRe    = regexp.MustCompile(`^[+-]?([0-9]+\.?[0-9]*|\.[0-9]+)([eE][+-]?[0-9]+)?`)
+	decRe      = regexp.MustCompile(`^-?[0-9]*\.?[0-9]*`)
 	outFloatRe = regexp.MustCompile(`^-?([0-9]+\.?[0-9]*|\.[0-9]+)(e-?[0-9]+)?$`)
 	outDecRe   = regexp.MustCompile(`^-?[0-9]+(\.[0-9]*[1-9])?$`)
 )
